@@ -54,6 +54,7 @@ pub fn base_plan(profile: &str, seed: u64, g: Geometry) -> Plan {
         fs_yield_pm: 0,
         disk_fail_writes: vec![],
         disk_fail_reads: vec![],
+        preexisting: vec![],
         tracker: TrackerPlan { steps: vec![] },
         peers: vec![],
         deadline_ms: 60_000,
@@ -851,7 +852,21 @@ pub fn adversary_mix(seed: u64) -> Plan {
             p.disk_fail_writes.push(r.below(n as u64 + 2));
         }
     }
+    // restart after a crash: piece files of an earlier run are still lying around
+    if r.chance(1, 5) {
+        for _ in 0..r.range(1, 4) {
+            p.preexisting.push((r.below(n as u64) as u32, r.below(3) as u8));
+        }
+    }
     let mut names: Vec<String> = p.peers.iter().map(|x| x.name.clone()).collect();
+    // a tracker may list the same address more than once
+    if r.chance(1, 6) {
+        let dup = r.pick(&names).clone();
+        names.push(dup.clone());
+        if let Some(q) = p.peers.iter_mut().find(|q| q.name == dup) {
+            q.max_accepts = q.max_accepts.max(3);
+        }
+    }
     r.shuffle(&mut names);
     p.tracker.steps.push((r.range(1, 50), TrackerStep::Good { peers: names, malformed: 0, wrong_id_for: vec![] }));
     p.fs_yield_pm = *r.pick(&[0u32, 100, 500]);
@@ -1172,6 +1187,12 @@ pub fn announce(seed: u64) -> Plan {
     let mut names: Vec<String> = p.peers.iter().filter(|x| x.listed).map(|x| x.name.clone()).collect();
     r.shuffle(&mut names);
     p.tracker.steps.push((1, TrackerStep::Good { peers: names, malformed: 0, wrong_id_for: vec![] }));
+    // now and then a verified piece cannot be written (it must then not be announced)
+    if r.chance(1, 6) {
+        for _ in 0..r.range(1, 3) {
+            p.disk_fail_writes.push(r.below(n as u64));
+        }
+    }
     p.deadline_ms = 60_000;
     p.linger_ms = 2_500;
     p
@@ -1237,8 +1258,10 @@ pub fn bookkeeping(seed: u64) -> Plan {
         let mut peer = base_peer(j, n);
         peer.essential = false;
         peer.max_accepts = r.range(1, 3) as u32;
-        peer.has = match r.below(3) {
+        peer.has = match r.below(4) {
             0 => vec![true; n],
+            // sparse: one or two pieces only (nothing else to choose while its piece is in flight)
+            1 => (0..n).map(|_| r.chance(1, 8)).collect(),
             _ => (0..n).map(|_| r.chance(1, 2)).collect(),
         };
         if peer.has.iter().all(|h| !*h) {
@@ -1262,6 +1285,15 @@ pub fn bookkeeping(seed: u64) -> Plan {
         if r.chance(1, 6) {
             peer.listed = r.chance(1, 2);
             peer.dial_in = vec![r.range(0, 5000)];
+        }
+        // while a piece is in flight: the bitfield again, then a new piece announced
+        if r.chance(1, 4) {
+            let c = r.range(1, 3) as u32;
+            let d = r.range(0, 50);
+            peer.script.push(step(When::AfterRx { kind: "Request".into(), count: c, plus: d }, Act::Send(Msg::Bitfield(crate::codec::bitfield_bytes(&peer.has)))));
+            peer.script.push(step(When::AfterRx { kind: "Request".into(), count: c, plus: d + r.range(1, 200) }, Act::Gain(r.below(n as u64) as u32)));
+            peer.answer.delay_min += 400;
+            peer.answer.delay_max += 400;
         }
         // random walk
         let mut t = r.range(1, 800);
